@@ -125,9 +125,24 @@ def run_one(sh, case, driver='generated'):
                                               axis=axis, return_samples=rs, n_jobs=case['n_jobs'], progress=case.get('progress'))
                 else:
                     o = copy.deepcopy(kw) or {}
-                    bg = BycycleGroup(center_extrema=o.get('center_extrema', 'peak'), burst_method=o.get('burst_method', 'cycles'),
-                                      burst_kwargs=o.get('burst_kwargs'), thresholds=o.get('threshold_kwargs'),
-                                      find_extrema_kwargs=o.get('find_extrema_kwargs'), return_samples=rs)
+                    if case.get('set_attrs'):
+                        # the options reach the object through its public attributes, after construction
+                        bg = BycycleGroup()
+                        bg.center_extrema = o.get('center_extrema', 'peak')
+                        bg.burst_method = o.get('burst_method', 'cycles')
+                        bg.burst_kwargs = o.get('burst_kwargs') or {}
+                        if o.get('threshold_kwargs') is not None:
+                            bg.thresholds = o['threshold_kwargs']
+                        elif bg.burst_method == 'amp':
+                            bg.thresholds = {'burst_fraction_threshold': 1, 'min_n_cycles': 3}
+                        if o.get('find_extrema_kwargs') is not None:
+                            bg.find_extrema_kwargs = o['find_extrema_kwargs']
+                        bg.return_samples = rs
+                        sh.note('options_set_as_attributes')
+                    else:
+                        bg = BycycleGroup(center_extrema=o.get('center_extrema', 'peak'), burst_method=o.get('burst_method', 'cycles'),
+                                          burst_kwargs=o.get('burst_kwargs'), thresholds=o.get('threshold_kwargs'),
+                                          find_extrema_kwargs=o.get('find_extrema_kwargs'), return_samples=rs)
                     if case.get('refit_from') is not None:
                         # the same group object was fitted before on an array of another shape (history on the object)
                         try:
@@ -299,7 +314,7 @@ def make_case(rng, shape=None, axis=None, kind=None, noalias=False):
         prev = gen_rows(rng, n0 * m1, nsamp, fs, lo, hi).reshape(n0, m1, nsamp)
         refit_from = prev if rng.random() < 0.8 else prev[:, 0, :]
     return dict(sigs=sigs, fs=fs, f_range=(lo, hi), kwargs=kw, kw_kind=kind, axis=axis, refit_from=refit_from, alias=alias,
-                layout=['C', 'C', 'F', 'T'][int(rng.integers(0, 4))], reuse_options=bool(rng.random() < 0.35), buffer_history=bool(rng.random() < 0.5),
+                layout=['C', 'C', 'F', 'T'][int(rng.integers(0, 4))], reuse_options=bool(rng.random() < 0.35), buffer_history=bool(rng.random() < 0.5), set_attrs=bool(rng.random() < 0.5),
                 return_samples=bool(rng.random() < 0.7), n_jobs=int(rng.choice([1, 2, -1])), api=api,
                 delay_seed=int(rng.integers(0, 1 << 30)),
                 progress=[None, None, 'tqdm', 'tqdm.notebook'][int(rng.integers(0, 4))], fake_tqdm=bool(rng.random() < 0.5))
@@ -328,6 +343,10 @@ def run(sh):
             c = make_case(rng, shape=shape, axis=(0, 1), kind='2d', noalias=True)
             sh.note('distinct_2d_option_grid_on_unequal_extents')
             guarded(sh, run_one, sh, c, 'class_cover')
+    # every shard: a group object that receives its options through its attributes
+    c = make_case(rng, shape=[(2, 2), (2, 3), (3, 2), (1, 3)][sh.shard % 4], axis=[0, 1, (0, 1)][sh.shard % 3], kind='dict')
+    c['api'], c['set_attrs'] = 'obj', True
+    guarded(sh, run_one, sh, c, 'attributes')
     K = 2 if sh.tier == 'quick' else 150
     for it in range(K):
         guarded(sh, run_one, sh, make_case(rng))
